@@ -1386,12 +1386,14 @@ func (r *runningStep) runStage(forceCloseTimeoutMS int64) error {
 
 	// Execution complete, move to state running stage outputs, then to state finished stage.
 	r.transitionRunningStage(StageIDOutput)
-	r.completeStep(r.currentStage, step.RunningStepStateFinished, &result.OutputID, &result.OutputData)
 	// The step produced its output: it can no longer crash, fail to deploy or be closed early.
 	// Without this, anything that depends on those stages would wait until every other step ends.
+	// This is declared before the completion is reported: once a step shows as finished nothing may
+	// still be owed to the workflow, or a delay here would look like a standstill.
 	doneErr := fmt.Errorf("step %s/%s finished with an output", r.runID, r.pluginStepID)
 	r.markStagesImpossible(doneErr, StageIDDeployFailed, StageIDDisabled, StageIDCrashed)
 	r.markNotClosable(doneErr)
+	r.completeStep(r.currentStage, step.RunningStepStateFinished, &result.OutputID, &result.OutputData)
 
 	return nil
 }
@@ -1441,12 +1443,13 @@ func (r *runningStep) deployFailed(err error) {
 	output := any(DeployFailed{
 		Error: err.Error(),
 	})
-	r.completeStep(StageIDDeployFailed, step.RunningStepStateFinished, &outputID, &output)
 	// If deployment fails, enabling, disabled, starting, running, and output cannot occur.
+	// Declared before the completion is reported (see runStage).
 	err = fmt.Errorf("deployment failed for step %s/%s", r.runID, r.pluginStepID)
 	r.markStageFailures(StageIDEnabling, err)
 	r.markNotClosable(err)
 	r.markStagesImpossible(err, StageIDCrashed)
+	r.completeStep(StageIDDeployFailed, step.RunningStepStateFinished, &outputID, &output)
 }
 
 func (r *runningStep) transitionToDisabled() {
@@ -1460,17 +1463,18 @@ func (r *runningStep) transitionToDisabled() {
 		&enabledOutput,
 	)
 	disabledOutput := any(map[any]any{"message": fmt.Sprintf("Step %s/%s disabled", r.runID, r.pluginStepID)})
+	// Declared before the completion is reported (see runStage).
+	err := fmt.Errorf("step %s/%s disabled", r.runID, r.pluginStepID)
+	r.markStageFailures(StageIDStarting, err)
+	r.markNotClosable(err)
+	r.markStagesImpossible(err, StageIDDeployFailed, StageIDCrashed)
+
 	r.completeStep(
 		StageIDDisabled,
 		step.RunningStepStateFinished, // Must set the stage to finished for the engine realize the step is done.
 		schema.PointerTo("output"),
 		&disabledOutput,
 	)
-
-	err := fmt.Errorf("step %s/%s disabled", r.runID, r.pluginStepID)
-	r.markStageFailures(StageIDStarting, err)
-	r.markNotClosable(err)
-	r.markStagesImpossible(err, StageIDDeployFailed, StageIDCrashed)
 }
 
 func (r *runningStep) closedEarly(stageToMarkUnresolvable StageID, priorStageFailed bool) {
@@ -1486,13 +1490,7 @@ func (r *runningStep) closedEarly(stageToMarkUnresolvable StageID, priorStageFai
 	r.lock.Unlock()
 	closedOutput := any(map[any]any{"cancelled": cancelled, "close_requested": r.closed.Load()})
 
-	r.completeStep(
-		StageIDClosed,
-		step.RunningStepStateFinished,
-		schema.PointerTo("result"),
-		&closedOutput,
-	)
-
+	// Declared before the completion is reported (see runStage).
 	err := fmt.Errorf("step %s/%s closed due to workflow termination", r.runID, r.pluginStepID)
 	r.markStageFailures(stageToMarkUnresolvable, err)
 	if stageToMarkUnresolvable != StageIDEnabling {
@@ -1500,6 +1498,13 @@ func (r *runningStep) closedEarly(stageToMarkUnresolvable StageID, priorStageFai
 		r.markStagesImpossible(err, StageIDDisabled)
 	}
 	r.markStagesImpossible(err, StageIDDeployFailed, StageIDCrashed)
+
+	r.completeStep(
+		StageIDClosed,
+		step.RunningStepStateFinished,
+		schema.PointerTo("result"),
+		&closedOutput,
+	)
 }
 
 func (r *runningStep) startFailed(err error) {
@@ -1512,10 +1517,11 @@ func (r *runningStep) startFailed(err error) {
 		Output: err.Error(),
 	})
 
-	r.completeStep(StageIDCrashed, step.RunningStepStateFinished, &outputID, &output)
+	// Declared before the completion is reported (see runStage).
 	r.markStageFailures(StageIDRunning, err)
 	r.markNotClosable(err)
 	r.markStagesImpossible(err, StageIDDeployFailed, StageIDDisabled)
+	r.completeStep(StageIDCrashed, step.RunningStepStateFinished, &outputID, &output)
 }
 
 func (r *runningStep) runFailed(err error) {
@@ -1527,10 +1533,11 @@ func (r *runningStep) runFailed(err error) {
 	output := any(Crashed{
 		Output: err.Error(),
 	})
-	r.completeStep(StageIDCrashed, step.RunningStepStateFinished, &outputID, &output)
+	// Declared before the completion is reported (see runStage).
 	r.markStageFailures(StageIDOutput, err)
 	r.markNotClosable(err)
 	r.markStagesImpossible(err, StageIDDeployFailed, StageIDDisabled)
+	r.completeStep(StageIDCrashed, step.RunningStepStateFinished, &outputID, &output)
 }
 
 // TransitionStage transitions the running step to the specified stage, and the state running.
